@@ -229,24 +229,71 @@ theorem header_roundtrip {ν : Type} (io : NumIO ν) (hio : IOok io) (bo : ByteO
   rw [k1, k2, k3, k4, k5, k6, k7, k8, k10, k11]
   rw [setInt_nrows, setInt_ncols, setNum_xll, setNum_yll, setNum_csz, setInt_nbits, setText_pixeltype,
     setText_byteorder, setNodata_value, setText_name, setText_comment]
-  unfold finishConfig
-  dsimp only
   have hshape : ¬ (g.nrows < 0 ∨ g.ncols < 0) := by
     have := hg.nrows_nonneg; have := hg.ncols_nonneg; omega
   cases bo with
   | little =>
     have hb1 : ¬ ("i".toList ≠ "m".toList ∧ "i".toList ≠ "i".toList) := by decide
     have hb2 : ¬ ("i".toList = "m".toList) := by decide
-    dsimp only [boKey]
+    simp only [boKey]
+    unfold finishConfig
+    dsimp only
     rw [if_neg hb1]
     simp only [if_neg hb2, hdtL, Config.init, mkGrid, hnv, if_neg hshape]
     exact ⟨_, rfl, rfl, rfl, rfl, rfl, rfl, rfl, rfl, rfl, rfl, rfl, rfl⟩
   | big =>
     have hb1 : ¬ ("m".toList ≠ "m".toList ∧ "m".toList ≠ "i".toList) := by decide
-    dsimp only [boKey]
+    simp only [boKey]
+    unfold finishConfig
+    dsimp only
     rw [if_neg hb1]
-    simp only [if_true, hdtB, Config.init, mkGrid, hnv, if_neg hshape]
+    simp only [↓reduceIte, hdtB, Config.init, mkGrid, hnv, if_neg hshape]
     exact ⟨_, rfl, rfl, rfl, rfl, rfl, rfl, rfl, rfl, rfl, rfl, rfl, rfl⟩
 
+/-- a grid as the property quantifies over it: admissible header fields, default `mindata/maxdata`, an
+`nrows × ncols` array of words of the grid's dtype -/
+structure GridOK {ν : Type} (io : NumIO ν) (g : Grid ν) : Prop where
+  header : HeaderOK io g
+  default_bounds : g.lo = none ∧ g.hi = none
+  rows : (g.data.length : Int) = g.nrows
+  cols : ∀ r ∈ g.data, (r.length : Int) = g.ncols
+  words : ∀ r ∈ g.data, ∀ w ∈ r, w < wordBound g.dtype
+
+theorem bytes_pos_of_mem {t : DType} (h : t ∈ allDTypes) : 0 < t.bytes := by
+  revert t; decide
+
+/-- **raster of either byte order**: the header written for `g` with byte-order letter `bo`, together with a data
+file holding `g`'s words row by row in byte order `bo`, is loaded by `from_stream` to a grid with identical shape,
+georeferencing, dtype, no-data value and bit-identical cell values -/
+theorem fromStream_file {ν : Type} (io : NumIO ν) (hio : IOok io) (bo : ByteOrder) (g : Grid ν) (hg : GridOK io g)
+    (d : Str) :
+    ∃ h, writeHeaderBO io bo g = .ok h ∧ ∃ g',
+      fromStream io d h (some (g.data.flatten.flatMap (encode bo g.dtype.bytes))) = .ok g' ∧
+      g'.nrows = g.nrows ∧ g'.ncols = g.ncols ∧ g'.xll = g.xll ∧ g'.yll = g.yll ∧ g'.csz = g.csz ∧
+      g'.dtype = g.dtype ∧ g'.nodata = g.nodata ∧ g'.data = g.data := by
+  obtain ⟨h, hw, c, hi, hparse, hfin, hbo, hnr, hnc, hx, hy, hcs, hdt, hnd, hlo, hhi, _⟩ :=
+    header_roundtrip io hio bo g hg.header d
+  refine ⟨h, hw, ?_⟩
+  have hload := load_file hi.grid bo g.data (by rw [hdt]; exact bytes_pos_of_mem hg.header.supported) ⟨hlo, hhi⟩
+    (by rw [hnc]; exact hg.header.ncols_nonneg) (by rw [hnr]; exact hg.rows) (by rw [hnc]; exact hg.cols)
+    (by rw [hdt]; exact hg.words)
+  rw [hdt] at hload
+  unfold fromStream
+  simp only [hparse, hfin, hbo, hload]
+  exact ⟨_, rfl, hnr, hnc, hx, hy, hcs, rfl, hnd, rfl⟩
+
+/-- **save then load**: what `Grid.save` writes (header text, `tofile` bytes) is loaded back by
+`from_header / from_stream / from_zip` to identical shape, georeferencing, dtype, no-data value and
+bit-identical cell values -/
+theorem save_load {ν : Type} (io : NumIO ν) (hio : IOok io) (g : Grid ν) (hg : GridOK io g) (d : Str) :
+    ∃ h bytes, save io g = .ok (h, bytes) ∧ ∃ g', fromStream io d h (some bytes) = .ok g' ∧
+      g'.nrows = g.nrows ∧ g'.ncols = g.ncols ∧ g'.xll = g.xll ∧ g'.yll = g.yll ∧ g'.csz = g.csz ∧
+      g'.dtype = g.dtype ∧ g'.nodata = g.nodata ∧ g'.data = g.data := by
+  obtain ⟨h, hw, g', hl, rest⟩ := fromStream_file io hio .little g hg d
+  refine ⟨h, saveData g.dtype g.data, ?_, g', ?_, rest⟩
+  · unfold save writeHeader; rw [hw]
+  · have he : encode ByteOrder.little g.dtype.bytes = encodeLE g.dtype.bytes := by funext w; rfl
+    rw [he] at hl
+    exact hl
 
 end HydroVerif.C13
